@@ -169,6 +169,9 @@ class StackWorld(object):
         f = LoggingFactory(self.next_provider)
         s = RecResurrector(f, self.sink_properties, properties)
         f.owner = s
+        # "the resurrector knows its connection is down" = it has raised its own fault signal
+        s.sim_notified = False
+        s.on_faulted.Subscribe(lambda _v, s=s: setattr(s, 'sim_notified', True))
         world.resurrectors.append(s)
         return s
 
@@ -468,11 +471,15 @@ class StackWorld(object):
       except AttributeError:
         nodes, idle = [], [None]
       if nodes and not idle:
-        # "down" as the resurrector itself knows it (it has dropped its sink); in
-        # the instant in which a pool closes itself the resurrector may not
-        # have been told yet and still forwards requests to it
+        # "down" as the resurrector itself knows it (it has dropped its sink or
+        # raised its fault signal); in the instant in which a pool closes itself
+        # the resurrector may not have been told yet and still forwards to it
+        for r in self.resurrectors:
+          if r.state != ChannelState.Closed:
+            r.sim_notified = False
         all_down = all(n.channel in self.resurrectors and n.channel.state == ChannelState.Closed
-                       and n.channel.next_sink is None for n in nodes)
+                       and (n.channel.next_sink is None or getattr(n.channel, 'sim_notified', False))
+                       for n in nodes)
     if op.get('via') == 'proxy' and self.closed_at is None:
       fn = getattr(self.client, m + '_async')
       c = self.tracker.issue(None, cid, m, args, timeout=None, spec=op, fn=lambda: fn(*args))
@@ -783,9 +790,11 @@ class StackWorld(object):
         for arr in c.arrivals:
           _, epi, conn_id, r = arr
           conn = r.conn
-          if r.at <= t0 and not (conn.dead or conn.client_closed or conn.silent) and not r.server.muted:
+          # (the request may also reach the server after t0: its write was
+          # blocked half-way by back-pressure when the deadline fired)
+          if not (conn.dead or conn.client_closed or conn.silent or conn.was_silent) and not r.server.muted:
             if r.answered_at is not None and r.answered_at <= t0:
-              continue      # the reply was already on its way back
+              continue      # the reply was already on its way back when the deadline fired
             got = [d for d in r.server.discards if d[1] == conn.id and d[2] == r.tag and d[0] >= r.at]
             if not got:
               REC.violation('C12', 'no_discard',
